@@ -56,8 +56,27 @@ class Guarded:
         object.__setattr__(self, "_obj", obj)
         object.__setattr__(self, "_prop", prop)
         object.__setattr__(self, "_what", what)
+        object.__setattr__(self, "_expect", ())
+
+    def expecting(self, *types):
+        """Context manager: inside it the listed documented exception types may be raised by the extension (the
+        caller judges them); outside it a ValueError / OverflowError is raised for arguments that are in range and
+        on the grid by construction, which the property forbids."""
+        outer = self
+
+        class _Ctx:
+            def __enter__(self_inner):
+                object.__setattr__(outer, "_expect", tuple(types))
+
+            def __exit__(self_inner, *a):
+                object.__setattr__(outer, "_expect", ())
+                return False
+
+        return _Ctx()
 
     def _convert(self, name, args, ex):
+        if isinstance(ex, (ValueError, OverflowError)) and not isinstance(ex, self._expect):
+            return Violation("%s %s raised for in-range, on-grid arguments" % (self._prop, type(ex).__name__), "%s.%s%r raised %r" % (self._what, name, args, ex))
         if isinstance(ex, (ValueError, OverflowError)) or type(ex).__name__ == "PanicException" or isinstance(ex, (KeyboardInterrupt, SystemExit, MemoryError)):
             return ex
         return Violation("%s Python call raised an undocumented exception" % self._prop, "%s.%s%r raised %r" % (self._what, name, args, ex))
